@@ -75,6 +75,26 @@ fn corpus(r: &mut Rng, kind: usize, n_sent: usize, vocab: &[String]) -> Vec<(cha
             }
             out.push(('t', s));
         }
+        // the same text again, next to itself, under other annotations (once with fewer, once with more labelled boundaries):
+        // what a sentence contributes must not depend on what the trainer was given before it
+        if kind >= 2 && r.chance(1, 3) {
+            let text: Vec<char> = toks.concat().chars().collect();
+            for pass in 0..r.range(1, 3) {
+                let p_unknown = if pass == 0 { 2 } else { 0 };
+                let mut s = String::new();
+                for (i, ch) in text.iter().enumerate() {
+                    s.push(*ch);
+                    if i + 1 < text.len() {
+                        s.push(if r.chance(p_unknown, 3) { ' ' } else if r.chance(1, 2) { '|' } else { '-' });
+                    }
+                }
+                if r.chance(1, 2) {
+                    out.insert(out.len() - 1, ('p', s));
+                } else {
+                    out.push(('p', s));
+                }
+            }
+        }
     }
     out
 }
